@@ -872,3 +872,121 @@ package tengo
 //@   ensures child{C13}: result != nil && fresh(result) && result.parent == c && result.modulePath == modulePath
 //@   ensures settings{C13}: result.allowFileImport == c.allowFileImport && result.modules == c.modules
 //@   ensures table{C13}: symbolTable != nil ==> result.symbolTable == symbolTable
+
+// ---------------------------------------------------------------------------
+// C15: host <-> script value exchange (docs/interoperability.md table)
+// ---------------------------------------------------------------------------
+
+//@ func extern (*sync.RWMutex).Lock
+//@   assigns nothing
+//@ func extern (*sync.RWMutex).Unlock
+//@   assigns nothing
+//@ func extern (*sync.RWMutex).RLock
+//@   assigns nothing
+//@ func extern (*sync.RWMutex).RUnlock
+//@   assigns nothing
+//@ func extern errors.New
+//@   assigns nothing
+//@   ensures result != nil && fresh(result)
+
+//@ func FromInterface
+//@   props C15
+//@   assigns nothing
+//@   ensures from_nil: v == nil ==> res0 == UndefinedValue && res1 == nil
+//@   ensures from_string: is(v, string) && len(v.(string)) <= MaxStringLen ==> res1 == nil && is(res0, *String) && res0.(*String).Value == v.(string)
+//@   ensures from_string_limit{C15,C06}: is(v, string) && len(v.(string)) > MaxStringLen ==> res0 == nil && res1 == ErrStringLimit
+//@   ensures from_int64: is(v, int64) ==> res1 == nil && is(res0, *Int) && res0.(*Int).Value == v.(int64)
+//@   ensures from_int: is(v, int) ==> res1 == nil && is(res0, *Int) && res0.(*Int).Value == int64(v.(int))
+//@   ensures from_bool: is(v, bool) ==> res1 == nil && res0 == boolobj(v.(bool))
+//@   ensures from_rune: is(v, rune) ==> res1 == nil && is(res0, *Char) && res0.(*Char).Value == v.(rune)
+//@   ensures from_byte: is(v, byte) ==> res1 == nil && is(res0, *Char) && res0.(*Char).Value == rune(v.(byte))
+//@   ensures from_float64: is(v, float64) && !spec.isnan(v.(float64)) ==> res1 == nil && is(res0, *Float) && res0.(*Float).Value == v.(float64)
+//@   ensures from_bytes: is(v, []byte) && len(v.([]byte)) <= MaxBytesLen ==> res1 == nil && is(res0, *Bytes) && sameslice(res0.(*Bytes).Value, v.([]byte))
+//@   ensures from_bytes_limit{C15,C06}: is(v, []byte) && len(v.([]byte)) > MaxBytesLen ==> res0 == nil && res1 == ErrBytesLimit
+//@   ensures from_time: is(v, time.Time) ==> res1 == nil && is(res0, *Time) && res0.(*Time).Value == v.(time.Time)
+//@   ensures from_array: is(v, []Object) ==> res1 == nil && is(res0, *Array) && sameslice(res0.(*Array).Value, v.([]Object))
+//@   ensures ok_nonnil: res1 == nil ==> res0 != nil
+
+//@ func ToInterface
+//@   props C15
+//@   ensures to_int: is(o, *Int) ==> is(res, int64) && res.(int64) == o.(*Int).Value
+//@   ensures to_string: is(o, *String) ==> is(res, string) && res.(string) == o.(*String).Value
+//@   ensures to_float: is(o, *Float) && !spec.isnan(o.(*Float).Value) ==> is(res, float64) && res.(float64) == o.(*Float).Value
+//@   ensures to_bool: is(o, *Bool) ==> is(res, bool) && res.(bool) == (o == TrueValue)
+//@   ensures to_char: is(o, *Char) ==> is(res, rune) && res.(rune) == o.(*Char).Value
+//@   ensures to_bytes: is(o, *Bytes) ==> is(res, []byte) && sameslice(res.([]byte), o.(*Bytes).Value)
+//@   ensures to_time: is(o, *Time) ==> is(res, time.Time) && res.(time.Time) == o.(*Time).Value
+//@   ensures to_undefined: is(o, *Undefined) ==> res == nil
+
+// Compiled: the host reads and writes globals through the name -> index table
+//@ func (*Compiled).Set
+//@   props C15
+//@   requires indexes: forall k string :: haskey(c.globalIndexes, k) ==> 0 <= c.globalIndexes[k] && c.globalIndexes[k] < len(c.globals)
+//@   assigns c.globals[*]
+//@   ensures undeclared: !haskey(c.globalIndexes, name) ==> result != nil
+//@   ensures untouched_on_error: result != nil ==> forall i in 0..len(c.globals) :: c.globals[i] == old(c.globals[i])
+//@   ensures stored: result == nil ==> haskey(c.globalIndexes, name) && c.globals[c.globalIndexes[name]] != nil
+//@   ensures others_kept: result == nil ==> forall i in 0..len(c.globals) :: i != c.globalIndexes[name] ==> c.globals[i] == old(c.globals[i])
+
+//@ func (*Compiled).Get
+//@   props C15
+//@   requires indexes: forall k string :: haskey(c.globalIndexes, k) ==> 0 <= c.globalIndexes[k] && c.globalIndexes[k] < len(c.globals)
+//@   assigns nothing
+//@   ensures fresh_var: result != nil && fresh(result) && result.name == name
+//@   ensures undeclared: !haskey(c.globalIndexes, name) ==> result.value == UndefinedValue
+//@   ensures declared: haskey(c.globalIndexes, name) && c.globals[c.globalIndexes[name]] != nil ==> result.value == c.globals[c.globalIndexes[name]]
+//@   ensures declared_unset: haskey(c.globalIndexes, name) && c.globals[c.globalIndexes[name]] == nil ==> result.value == UndefinedValue
+
+//@ func (*Compiled).IsDefined
+//@   props C15
+//@   requires indexes: forall k string :: haskey(c.globalIndexes, k) ==> 0 <= c.globalIndexes[k] && c.globalIndexes[k] < len(c.globals)
+//@   assigns nothing
+//@   ensures undeclared: !haskey(c.globalIndexes, name) ==> !result
+//@   ensures declared: haskey(c.globalIndexes, name) ==> result == (c.globals[c.globalIndexes[name]] != nil && c.globals[c.globalIndexes[name]] != UndefinedValue)
+
+//@ func (*Script).Add
+//@   props C15
+//@   requires s.variables != nil
+//@   assigns s.variables[*]
+//@   ensures error_keeps: result != nil ==> forall k string :: haskey(s.variables, k) == old(haskey(s.variables, k))
+//@   ensures added: result == nil ==> haskey(s.variables, name) && s.variables[name] != nil && s.variables[name].name == name && s.variables[name].value != nil
+//@   ensures others: result == nil ==> forall k string :: k != name ==> haskey(s.variables, k) == old(haskey(s.variables, k)) && s.variables[k] == old(s.variables[k])
+
+//@ func (*Script).Remove
+//@   props C15
+//@   assigns s.variables[*]
+//@   ensures missing: !old(haskey(s.variables, name)) ==> !result
+//@   ensures removed: old(haskey(s.variables, name)) ==> result && !haskey(s.variables, name)
+//@   ensures others: forall k string :: k != name ==> haskey(s.variables, k) == old(haskey(s.variables, k)) && s.variables[k] == old(s.variables[k])
+
+// typed accessors = the conversion contracts of C10
+//@ func (*Variable).Int
+//@   props C15
+//@   requires v.value != nil
+//@   assigns nothing
+//@   ensures from_int: is(v.value, *Int) ==> result == int(v.value.(*Int).Value)
+//@   ensures none: !is(v.value, *Int) && !is(v.value, *Float) && !is(v.value, *Char) && !is(v.value, *Bool) && !is(v.value, *String) ==> result == 0
+//@ func (*Variable).Int64
+//@   props C15
+//@   requires v.value != nil
+//@   assigns nothing
+//@   ensures from_int: is(v.value, *Int) ==> result == v.value.(*Int).Value
+//@   ensures none: !is(v.value, *Int) && !is(v.value, *Float) && !is(v.value, *Char) && !is(v.value, *Bool) && !is(v.value, *String) ==> result == 0
+//@ func (*Variable).Char
+//@   props C15
+//@   requires v.value != nil
+//@   assigns nothing
+//@   ensures from_char: is(v.value, *Char) ==> result == v.value.(*Char).Value
+//@   ensures none: !is(v.value, *Int) && !is(v.value, *Char) ==> result == 0
+//@ func (*Variable).IsUndefined
+//@   props C15
+//@   assigns nothing
+//@   ensures def: result == (v.value == UndefinedValue)
+//@ func (*Variable).Object
+//@   props C15
+//@   assigns nothing
+//@   ensures same: result == v.value
+
+// error values handed over by the host are read-only
+//@ func interface error.Error
+//@   assigns nothing
